@@ -192,7 +192,7 @@ pub fn property() -> Property {
         parts: vec![Box::new(GenPart {
             name: "preview-vs-real",
             rule: "see property rule",
-            cases: (200_000, 6_000_000),
+            cases: (2_000_000, 6_000_000),
             strategy,
             check,
             required_classes: &["both-ok", "both-err", "ptype<0x0100", "ptype-rejected-range", "buffer>4097", "ctx-at-end", "ctx-beyond", "state-no-substitution", "state-may-substitute"],
